@@ -262,8 +262,7 @@ func init() {
 	}
 	// ---- addresses -------------------------------------------------------------------------------
 	addrStr := func(fc *FCtx, st *State, e *ast.CallExpr, r *Val, a []Val) []Val {
-		fc.U.Fun("addr_string", []*Sort{r.S}, SStr)
-		fc.U.Axiom("bech32 injective", "(forall ((a Addr) (b Addr)) (! (=> (= (addr_string a) (addr_string b)) (= a b)) :pattern ((addr_string a) (addr_string b))))")
+		fc.bech32Fns()
 		return []Val{{T: app("addr_string", r.T), S: SStr, GoT: fc.resT(e)}}
 	}
 	I["(github.com/cosmos/cosmos-sdk/types.AccAddress).String"] = addrStr
